@@ -1011,10 +1011,17 @@ class SymX:
     def _display_items(self, it: Term) -> "list[Term] | None":
         """Elements of a tuple / list display that is iterated as written (never mutated, no unpacking inside)."""
         src = it
+        view = None
+        if src[0] == "mcall" and src[2] in ("items", "values", "keys") and not src[3] and src[1][0] == "box" and src[1][2] == "dict":
+            view, src = src[2], src[1]  # the entries of a dict display, in the order they are written
         if src[0] == "box":
             if not self._never_mutated(src):
                 return None
             src = src[3]
+        if view is not None:
+            if src[0] != "dict" or any(is_const(k, "**") for k, _v in src[1]):
+                return None
+            return [("tuple", (k, v)) if view == "items" else v if view == "values" else k for k, v in src[1]]
         if src[0] in ("tuple", "list") and not any(x[0] == "star" for x in src[1]):
             return list(src[1])
         return None
@@ -1307,9 +1314,13 @@ class SymX:
         if src[0] == "comp" and src[1] in ("list", "gen") and len(src[3]) == 1 and not src[3][0][2]:
             # a comprehension over a display of exactly n elements: element i is the comprehension's element for the i-th item
             tgt, it, _conds = src[3][0]
-            items = it[3] if it[0] == "box" else it
-            if items[0] in ("tuple", "list") and len(items[1]) == n and not any(x[0] == "star" for x in items[1]) and tgt[0] == "elem":
-                return [rewrite(src[2], lambda x, e=e: e if x == tgt else None) for e in items[1]]
+            elems = self._display_items(it) if it[0] in ("box", "mcall") else (list(it[1]) if it[0] in ("tuple", "list") and not any(x[0] == "star" for x in it[1]) else None)
+            if elems is not None and len(elems) == n:
+                if tgt[0] == "elem":
+                    return [rewrite(src[2], lambda x, e=e: e if x == tgt else None) for e in elems]
+                if tgt[0] == "tuple" and all(e[0] == "tuple" and len(e[1]) == len(tgt[1]) for e in elems):
+                    # `for a, b in display_of_pairs`: each target component stands for the matching component of the element
+                    return [rewrite(src[2], lambda x, e=e: dict(zip(tgt[1], e[1])).get(x)) for e in elems]
         return [("idx", v, const(i)) for i in range(n)]
 
     def _augassign(self, s: ast.AugAssign, st: State) -> State:
